@@ -6,7 +6,9 @@
                                                  get_time_window, get_time_window_from_vec, get_time_windows, get_duplicates
      vrp-pragmatic/src/validation/jobs.rs     :: check_e1100 .. check_e1107, validate_jobs
      vrp-pragmatic/src/validation/vehicles.rs :: check_e1300 .. check_e1304, check_e1306 .. check_e1308, get_invalid_type_ids
-                                                 (short-circuiting `all` over shifts; check_e1303 with parse_time_safe),
+                                                 (short-circuiting `all` over shifts; check_e1303 with parse_time_safe;
+                                                 check_e1302 also parses start.latest (d67b161); check_e1303 treats an optional
+                                                 offset break whose list is not a pair as an invalid window (7653bff)),
                                                  check_shift_time_windows,
                                                  get_shift_time_window, validate_vehicles
      vrp-pragmatic/src/validation/routing.rs  :: check_e1500, check_e1501, check_e1504 (approximated-matrix mode), check_e1505,
@@ -16,11 +18,14 @@
      vrp-pragmatic/src/format/problem/fleet_reader.rs :: read_fleet (parse_time unwraps, capacity.first().unwrap(), MultiDimLoad::new)
      vrp-pragmatic/src/format/problem/job_reader.rs   :: read_required_jobs (MultiDimLoad::new, parse_times/parse_time_window),
                                                  read_optional_breaks (arity panics, parse_time_window), read_reloads
-     vrp-pragmatic/src/format/problem/problem_reader.rs :: map_to_problem_with_approx (approximated matrices first), map_to_problem
+     vrp-pragmatic/src/format/problem/problem_reader.rs :: map_to_problem_with_approx (approximated matrices first; since 11fbd19
+                                                 create_approx_matrices returns no matrix for an empty profile list), map_to_problem
                                                  (validate before mapping), read_reserved_times_index (parse_time)
      vrp-core/src/models/problem/fleet.rs     :: Fleet::new (assert!(!vehicles.is_empty()))
-     fleet_reader.rs :: create_transport_costs, get_profile_index_map; vrp-core costs.rs :: create_matrix_transport_cost(_with_fallback),
-                                                 TimeAgnosticMatrixTransportCost::new (the E0002 conditions; run_transport)
+     fleet_reader.rs :: create_transport_costs (with the f7d2f27 check "not enough error codes"), get_profile_index_map;
+                                                 vrp-core costs.rs :: create_matrix_transport_cost(_with_fallback) (with the 17fc8e9 check
+                                                 "square matrices of the same size"), TimeAgnosticMatrixTransportCost::new
+                                                 (the E0002 conditions; run_transport)
 
    The document type is the reduction of format/problem/model.rs to the fields these functions look at; documents of this type
    have no relations, no objectives, no clustering, no recharges and only coordinate locations (every place its own coordinate),
@@ -199,8 +204,11 @@ Definition shift_raw_window (s : shift) : twraw :=
 
 Definition check_e1300 (d : doc) : option bool := Some (has_dup (map v_type (d_vehicles d))).
 Definition check_e1301 (d : doc) : option bool := Some (has_dup (flat_map v_ids (d_vehicles d))).
+(* has_valid_latest: every present start.latest parses (parse_time_safe(latest).is_ok()) *)
+Definition latest_valid (s : shift) : bool := match sh_latest s with Some l => is_some (tm_val l) | None => true end.
 Definition check_e1302 (d : doc) : option bool :=
-  Some (existsb (fun v => negb (check_raw_time_windows (map shift_raw_window (v_shifts v)) false)) (d_vehicles d)).
+  Some (existsb (fun v => negb (check_raw_time_windows (map shift_raw_window (v_shifts v)) false
+                                && forallb latest_valid (v_shifts v))) (d_vehicles d)).
 
 (* `vehicle.shifts.iter().all(f)`: stops at the first false; None = f panicked before that *)
 Fixpoint all_shifts (f : shift -> option bool) (ss : list shift) : option bool :=
@@ -232,11 +240,12 @@ Definition check_shift_time_windows (st : option tw) (tws : list (option tw)) (s
             end
   end.
 
-(* filter_map over the breaks: None = the break contributes no window (optional offset break) *)
+(* filter_map over the breaks: None = the break contributes no window (optional offset break with exactly two offsets);
+   an optional offset break of any other arity contributes the invalid window Some(None) *)
 Definition break_tw (s : shift) (b : brk) : option (option tw) :=
   match b with
   | BOptTW w => Some (get_time_window_from_vec w)
-  | BOptOff _ => None
+  | BOptOff o => if (List.length o =? 2)%nat then None else Some None
   | BReqOff e l dur => Some (match tm_val (sh_earliest s) with          (* parse_time_safe(&shift.start.earliest).ok().map(..) *)
                              | Some dep => Some (dep + e, dep + l + dur)
                              | None => None
@@ -371,14 +380,14 @@ Definition conditional_panic (d : doc) : bool :=
 Definition reader_panics (d : doc) : bool :=
   fleet_panics d || reserved_times_panic d || jobs_panic d || conditional_panic d.
 
-(* map_to_problem_with_approx: create_approx_matrices runs BEFORE validation; get_approx_transportation asserts
-   !speeds.is_empty(), i.e. at least one profile *)
-Definition approx_panics (d : doc) : bool := match d_profiles d with [] => true | _ => false end.
-(* the same step for any document read without matrices: `if coord_index.has_indices() { vec![] } else { create_approx_matrices(..) }`;
-   create_approx_matrices -> get_approx_transportation asserts !speeds.is_empty() and speed > 0 for every speed
+(* map_to_problem_with_approx, the step before validation for any document read without matrices:
+   `if coord_index.has_indices() { vec![] } else { create_approx_matrices(..) }`; create_approx_matrices returns no matrix when there
+   is no profile (11fbd19; validation then reports E1501), otherwise get_approx_transportation asserts speed > 0 for every speed
    (speed = profile.speed.unwrap_or(10); `speeds` = the speeds given explicitly).  With an index location nothing is approximated. *)
 Definition pre_validation_panics (has_indices : bool) (profiles : list string) (speeds : list Z) : bool :=
-  negb has_indices && (is_nil profiles || existsb (fun s => s <=? 0) speeds).
+  negb has_indices && negb (is_nil profiles) && existsb (fun s => s <=? 0) speeds.
+(* reduced documents carry no explicit speed *)
+Definition approx_panics (d : doc) : bool := pre_validation_panics false (d_profiles d) [].
 Definition validate_approx (d : doc) : vres := if approx_panics d then VPanic else validate d.
 
 Inductive rres := ROk | RErr (cs : list Z) | RPanic.
@@ -391,7 +400,8 @@ Definition read (d : doc) : rres :=
 
 (* ---------- fleet_reader.rs :: create_transport_costs on supplied routing matrices (+ vrp-core create_matrix_transport_cost) ----------
    Every failure of this step is Err(E0002); as written it has no panicking access: `.get(i).ok_or_else(..)?`.
-   Timestamps and custom locations are not modelled (no timestamps: time agnostic costs). *)
+   Timestamps and custom locations are not modelled (no timestamps: time agnostic costs; since a510a8a an unparsable timestamp
+   is one more Err of this step, checked by the reference of the `full` stream). *)
 Record matrix := mkMatrix { m_profile : option string; m_travel : list Z; m_dist : list Z; m_errors : option (list Z) }.
 
 (* for (i, error) in error_codes.iter().enumerate(): error > 0 pushes -1/-1, otherwise travel_times.get(i)? / distances.get(i)? *)
@@ -406,10 +416,11 @@ Fixpoint error_loop (i : nat) (ec tt dd : list Z) : option (list Z * list Z) :=
       | _, _ => None
       end
   end.
-(* (durations, distances) of one matrix; None = Err("invalid matrix index: i") *)
+(* (durations, distances) of one matrix; None = Err("not enough error codes specified") (fewer codes than distances, f7d2f27)
+   or Err("invalid matrix index: i") *)
 Definition matrix_data (m : matrix) : option (list Z * list Z) :=
   match m_errors m with
-  | Some ec => error_loop 0 ec (m_travel m) (m_dist m)
+  | Some ec => if (List.length ec <? List.length (m_dist m))%nat then None else error_loop 0 ec (m_travel m) (m_dist m)
   | None => Some (m_travel m, m_dist m)
   end.
 (* (len as Float).sqrt().round() as usize *)
@@ -470,6 +481,9 @@ Definition create_transport_costs (profiles : list string) (ms : list matrix) : 
                       if existsb (fun d : list Z * list Z => negb (List.length (snd d) =? List.length (fst d))%nat) datas then TErr
                       else if existsb (fun d : list Z * list Z => negb (round_sqrt (List.length (snd d)) =? size)%nat) datas then TErr
                       else if existsb (fun d : list Z * list Z => negb (round_sqrt (List.length (fst d)) =? size)%nat) datas then TErr
+                      else if existsb (fun d : list Z * list Z => negb (List.length (snd d) =? size * size)%nat
+                                                               || negb (List.length (fst d) =? size * size)%nat) datas then TErr
+                                                                                   (* "square matrices of the same size" (17fc8e9) *)
                       else if negb (nat_list_eqb (nsort idxs) (seq 0 (List.length idxs))) then TErr   (* "duplicate profiles.." *)
                       else TOk size (map (fun d : list Z * list Z => List.length (fst d)) datas)
                   end
